@@ -394,6 +394,27 @@ func rewriteFile(pkg *packages.Package, f *ast.File, fn, rel string, wantP bool,
 					}
 					fstack = fstack[:len(fstack)-1]
 					return false
+				case *ast.ForStmt, *ast.RangeStmt:
+					// a site on the loop's back edge, so that a loop without statements (a busy wait on an
+					// atomic, say) still passes a pre-emption point on every round
+					var body *ast.BlockStmt
+					if f, ok := y.(*ast.ForStmt); ok {
+						body = f.Body
+					} else {
+						body = y.(*ast.RangeStmt).Body
+					}
+					if body != nil {
+						fname := ""
+						if len(fstack) > 0 {
+							fname = fstack[len(fstack)-1]
+						}
+						pp := fset.Position(body.Lbrace)
+						id := *nextSite
+						*nextSite++
+						rep.Sites = append(rep.Sites, site{id, rel, pp.Line, pp.Column, fname + " (loop)"})
+						edits = append(edits, edit{off(body.Lbrace) + 1, 0, fmt.Sprintf("%s.P(%d);", rtAlias, id)})
+						needRT = true
+					}
 				case *ast.BlockStmt:
 					fname := ""
 					if len(fstack) > 0 {
